@@ -4,10 +4,10 @@ CONSTANTS
     Kinds = {"int", "float", "str", "none"}
     Values = {2}
     Cfgs <- MCLifeQuick
-    Modes = {"batch", "stream"}
-    MaxBatches = 3
+    Modes = {"batch"}
+    MaxBatches = 4
     MaxPts = 2
-    MaxStream = 3
+    MaxStream = 0
     BuggyCache = FALSE
 INVARIANTS
     TypeOK
